@@ -171,8 +171,6 @@ def gen_sheet_import(rng, cal_spec) -> dict:
         offs = rng.sample(range(0, 14), n) if rng.random() < 0.3 else list(range(n))
         if rng.random() < 0.5:
             offs.sort()
-        if rng.random() < 0.1:
-            offs[0] = 0
         cells = []
         for o in offs:
             p = base + o
